@@ -18,6 +18,8 @@ def _truncated_exponential_(rate, T):
     r'''returns a number between 0 and T from an
     exponential distribution conditional on the outcome being between 0 and T'''
     t = random.expovariate(rate)
+    if T == float('Inf'): #nothing to truncate (and 0*Inf below would give nan)
+        return t
     L = int(t/T)
     return t - L*T
    
